@@ -400,6 +400,8 @@ func ViaOf(caller string) string {
 		return "swallow"
 	case "cT":
 		return "twice"
+	case "cN":
+		return "nested"
 	}
 	return "direct"
 }
